@@ -7,6 +7,7 @@ import ast
 from ..cfg import Oracle, build_cfg
 from ..index import AnalysisError, UNKNOWN, norm, unparse
 from ..report import Ctx
+from ..terms import evaluator, show
 from ..util import Facts, callee_attr, calls_in_node, cfg_nodes_with_call
 from .C19 import check_stream_reassembly
 
@@ -42,43 +43,62 @@ def check(ctx: Ctx) -> None:
         for code, (m, c) in sent.items():
             if want_sender.get(code) != m.name:
                 ob.violation(m, c, f"ProxyIO.{m.name} sends {code}: the wrong operation is requested from the forwarder")
-        cfg = build_cfg(repo, fc, Oracle(repo, fc, precise=True))
         p = [x for x in fc.params()][0]
-        handled = {}
-        for t in cfg.nodes:
-            if t.kind == "test" and isinstance(t.ast, ast.Compare) and unparse(t.ast.left) == p and isinstance(t.ast.ops[0], ast.Eq):
-                handled[unparse(t.ast.comparators[0])] = t
+        DATA = ("sym", p)
+        byval = {v: k for k, v in gio.consts.items() if k.startswith("RIO_")}
+        evc = evaluator(repo, fc)
+        arms: dict[str, list] = {}
+
+        def arm_of(events, reply, where, node):
+            ops = [e.callee.split(".", 1)[1] for e in events if e.kind == "call" and e.callee and e.callee.startswith("sub_io.")]
+            if reply is not None and reply[0] == "sym" and reply[1].startswith("sub_io."):
+                ops.append(reply[1].split(".", 1)[1])
+            return (ops, reply, [e for e in events if e.kind == "call" and e.callee and e.callee.startswith("sub_io.")], where, node)
+
+        for path, st in evc.run(limit=4000):
+            if path[-1][0] != evc.cfg.exit.id:
+                continue
+            sends = [e for e in st.events if e.kind == "call" and e.callee == "control_chan.send"]
+            eqs = [t[3][1] for (t, v) in st.cond if v is True and t[0] == "cmp" and t[1] == "eq" and t[2] == DATA and t[3][0] == "const"]
+            eqs += [t[2][1] for (t, v) in st.cond if v is True and t[0] == "cmp" and t[1] == "eq" and t[3] == DATA and t[2][0] == "const"]
+            if eqs:
+                code = byval.get(eqs[-1], repr(eqs[-1]))
+                reply = sends[0].args[0] if len(sends) == 1 and sends[0].args else None
+                arms.setdefault(code, []).append(arm_of(st.events, reply, fc, sends[0].node if sends else fc.node) + (len(sends),))
+                continue
+            for snd in sends:
+                a = snd.args[0] if snd.args else None
+                mk = [e for e in st.events if e.kind == "call" and e.result == a] if a is not None else []
+                if mk and mk[0].recv is not None and mk[0].recv[0] in ("dictget", "idx") and mk[0].recv[1][0] == "dict" and mk[0].recv[2] == DATA:
+                    for (k, f) in mk[0].recv[1][1:]:
+                        code = byval.get(k[1], repr(k[1])) if k[0] == "const" else show(k)
+                        fn = repo.func(f"{fc.parent.qualname}.{f[1]}") if f[0] == "func" and repo.has_func(f"{fc.parent.qualname}.{f[1]}") else None
+                        if fn is None:
+                            ob.violation(fc, snd.node, f"the handler of {code} does not resolve to a local function")
+                            continue
+                        evh = evaluator(repo, fn)
+                        for hp, hst in evh.run(limit=2000):
+                            if hp[-1][0] == evh.cfg.exit.id:
+                                arms.setdefault(code, []).append(arm_of(hst.events, hst.ret if hst.ret is not None else ("const", None), fn, fn.node) + (len(sends),))
+        handled = set(arms)
         ob.site(fc, fc.node, "codes handled by the dispatcher", codes=sorted(handled))
         for code in sent:
             if code not in handled:
                 ob.violation(fc, fc.node, f"{code} is sent by ProxyIO but not handled by the forwarder: the requester blocks forever on the reply", construct=f"unhandled {code}")
-        for code, t in handled.items():
+        for code, lst in sorted(arms.items()):
             if code not in CONTROL:
-                ob.violation(fc, t.ast, f"the dispatcher handles unknown code {code}")
+                ob.violation(fc, fc.node, f"the dispatcher handles unknown code {code}")
                 continue
             op, reply = CONTROL[code]
-            # the arm = nodes reachable from the true edge before rejoining the exit
-            arm_start = [m for (m, l) in cfg.succ[t.id] if l == "true"]
-            other = cfg.reach([m for (m, l) in cfg.succ[t.id] if l == "false"])
-            arm = cfg.reach(arm_start) - other - {cfg.exit.id, cfg.raise_exit.id}
-            ops, sends = [], []
-            for nid in arm:
-                nd = cfg.nodes[nid]
-                if nd.ast is None:
-                    continue
-                for c in calls_in_node(nd):
-                    if callee_attr(c) == "send" and unparse(c.func.value) == "control_chan":
-                        sends.append(c)
-                for x in ast.walk(nd.ast):
-                    if isinstance(x, ast.Attribute) and unparse(x.value) == "sub_io":
-                        ops.append(x.attr)
-            ok = ops == [op] and len(sends) == 1
-            if ok:
-                a = sends[0].args[0]
-                ok = (reply == "None" and isinstance(a, ast.Constant) and a.value is None) or (reply == "result" and f"sub_io.{op}" in unparse(a))
-            ob.site(fc, t.ast, f"{code}: sub_io.{op} and exactly one reply ({reply})", ops=ops, replies=len(sends))
-            if not ok:
-                ob.violation(fc, t.ast, f"the {code} arm does not perform sub_io.{op} and send exactly one reply ({reply}): the requester would block, or act on the wrong result")
+            for (ops, rep, calls, where, node, nsends) in lst:
+                ok = ops == [op] and nsends == 1 and rep is not None
+                if ok and reply == "None":
+                    ok = rep == ("const", None)
+                elif ok:
+                    ok = (rep[0] == "sym" and rep[1] == f"sub_io.{op}") or (rep[0] == "fresh" and calls and calls[0].result == rep)
+                ob.site(where, node, f"{code}: sub_io.{op} and exactly one reply ({reply})", ops=ops, replies=nsends)
+                if not ok:
+                    ob.violation(where, node, f"the {code} arm does not perform sub_io.{op} and send exactly one reply ({reply}): the requester would block, or act on the wrong result")
         # the dispatcher is registered on the control channel; requester sends then waits for one reply
         fsp = repo.func("gateway_io.serve_proxy_io")
         reg = [c for c in repo.calls_in(fsp) if callee_attr(c) == "setcallback" and unparse(c.func.value) == "control_chan" and unparse(c.args[0]) == "control"]
@@ -120,23 +140,8 @@ def check(ctx: Ctx) -> None:
         ob.site(ffs, ws[0] if ws else ffs.node, "master->sub: bytes written unmodified")
         if len(ws) != 1 or unparse(ws[0].args[0]) != ffs.params()[0] or unparse(ws[0].func.value) != "sub_io":
             ob.violation(ffs, ffs.node, "forward_to_sub does not write exactly the received bytes to the sub process")
-        frm = [c for c in repo.calls_in(fsp) if unparse(c.func) == "Message.from_io"]
-        tio = [c for c in repo.calls_in(fsp) if callee_attr(c) == "to_io"]
-        ob.require(len(frm) == 1 and len(tio) == 1, "forwarder loop anchors not found")
-        var = unparse(repo.parent(frm[0]).targets[0]) if isinstance(repo.parent(frm[0]), ast.Assign) else None
-        ob.site(fsp, tio[0], "sub->master: the very Message read is re-emitted")
-        if var is None or unparse(tio[0].func.value) != var:
-            ob.violation(fsp, tio[0], "the forwarder does not re-emit the message object it read from the sub")
-        # EOF of the sub ends the loop (and only EOF)
-        lp = [x for x in repo.own_nodes(fsp) if isinstance(x, ast.While)]
-        hs = [h for x in repo.own_nodes(fsp) if isinstance(x, ast.Try) for h in x.handlers]
-        if len(lp) != 1 or not any(unparse(h.type) == "EOFError" and any(isinstance(y, ast.Break) for y in h.body) for h in hs if h.type is not None):
-            ob.violation(fsp, fsp.node, "the forwarding loop does not end exactly on EOF of the sub")
-        # the bootstrap byte of the sub is forwarded before the loop
-        init = [c for c in repo.calls_in(fsp) if callee_attr(c) == "read" and unparse(c.func.value) == "sub_io"]
-        fw = [c for c in repo.calls_in(fsp) if callee_attr(c) == "write" and unparse(c.func.value) == "forward_to_master_file"]
-        if len(init) != 1 or len(fw) != 1 or unparse(fw[0].args[0]) != unparse(repo.parent(init[0]).targets[0]):
-            ob.violation(fsp, fsp.node, "the sub's bootstrap byte is not forwarded unmodified to the master")
+        from .C08 import check_forwarder_loop
+        check_forwarder_loop(ob, repo)
 
     check_stream_reassembly(ctx, "C16.d")
 
